@@ -198,6 +198,26 @@ fn structural_mutants(seed: &[u8], target: u8, rng: &mut Lcg, budget: usize) -> 
             out.push(d);
         }
     }
+    // quoted strings replaced by degenerate ones (lone quote, empty, unterminated)
+    {
+        let mut i = 0;
+        while i < seed.len() {
+            if seed[i] == b'"' {
+                if let Some(j) = seed[i + 1..].iter().position(|&c| c == b'"') {
+                    let j = i + 1 + j;
+                    for r in [&b"\""[..], b"\"\"", b"\"a", b"a\"", b"\"\"\""] {
+                        let mut m = seed[..i].to_vec();
+                        m.extend_from_slice(r);
+                        m.extend_from_slice(&seed[j + 1..]);
+                        out.push(m);
+                    }
+                    i = j + 1;
+                    continue;
+                }
+            }
+            i += 1;
+        }
+    }
     // multi-byte and invalid UTF-8 at every position (bounded by budget through sampling on long seeds)
     let step = (seed.len() / 120).max(1);
     for i in (0..=seed.len()).step_by(step) {
